@@ -33,6 +33,7 @@ import (
 	"strconv"
 	"strings"
 	"sync"
+	"sync/atomic"
 	"time"
 
 	"github.com/0chain/common/core/util"
@@ -493,6 +494,8 @@ func c16KeyModel(initial map[string]string) porcupine.Model {
 	}
 }
 
+var c16Hangs int32 // cases whose child process had to be killed
+
 var raceEnabled = false // set by race_on.go under the race build tag
 
 func raceSummary(stderr string) string {
@@ -581,7 +584,11 @@ func runC16(ops []string) (res CaseResult) {
 	if err != nil {
 		return CaseResult{Outs: all("harness-error"), Fails: []string{"harness: " + err.Error()}}
 	}
-	ctx, cancel := context.WithTimeout(context.Background(), 45*time.Second)
+	if atomic.LoadInt32(&c16Hangs) >= 3 {
+		// a lock that is never released makes every later case hang as well: do not wait for all of them
+		return CaseResult{Outs: all("not-run"), Fails: []string{"harness-skip: not run: three earlier cases did not terminate (deadlock?)"}}
+	}
+	ctx, cancel := context.WithTimeout(context.Background(), 12*time.Second)
 	defer cancel()
 	cmd := exec.CommandContext(ctx, exe, "c16child")
 	cmd.Env = append(os.Environ(), "GORACE=halt_on_error=1 exitcode=66 atexit_sleep_ms=0")
@@ -612,6 +619,12 @@ func runC16(ops []string) (res CaseResult) {
 			if getChangesEscape(ops, sum) {
 				res.Finding = "C16-getchanges-escape"
 			}
+			return res
+		}
+		if ctx.Err() != nil {
+			atomic.AddInt32(&c16Hangs, 1)
+			res.Outs = all("timeout")
+			res.Fails = []string{"the scenario did not terminate within 12 s (deadlock: a lock is never released?)"}
 			return res
 		}
 		msg := stderr.String()
